@@ -1,3 +1,110 @@
+// vsim: deterministic simulation with fault injection for celeritas
+#include <cstdlib>
+#include <cstring>
 #include <iostream>
-#include "corecel/sys/VerifHook.hh"
-int main() { std::cout << "vsim placeholder " << (void*)celeritas::verif::g_yield_hook << "\n"; return 0; }
+#include <string>
+
+#include "corecel/io/Logger.hh"
+#include "core/Driver.hh"
+
+// Sanitizer defaults: classify sanitizer hits by exit code, no leak checking
+extern "C" __attribute__((used, visibility("default"))) char const* __asan_default_options()
+{
+    return "exitcode=77:detect_leaks=0:abort_on_error=0:allocator_may_return_null=1";
+}
+extern "C" __attribute__((used, visibility("default"))) char const* __ubsan_default_options()
+{
+    return "print_stacktrace=1:halt_on_error=1:exitcode=77";
+}
+extern "C" __attribute__((used, visibility("default"))) char const* __tsan_default_options()
+{
+    return "exitcode=77:halt_on_error=0:second_deadlock_stack=1:report_signal_unsafe=0";
+}
+
+static void usage()
+{
+    std::cerr << "usage: vsim run --property Cnn [--tier quick|thorough] [--seed N] [--runs N]\n"
+                 "                [--budget-s S] [--workers W] [--evidence FILE] [--repeat 2]\n"
+                 "       vsim replay FILE | exec FILE | plan --property Cnn --seed N --index I\n";
+}
+
+int main(int argc, char** argv)
+{
+    using namespace vsim;
+    if (argc < 2)
+    {
+        usage();
+        return 2;
+    }
+    // Quiet the library's loggers unless asked otherwise
+    if (!std::getenv("VSIM_VERBOSE"))
+    {
+        celeritas::world_logger().level(celeritas::LogLevel::critical);
+        celeritas::self_logger().level(celeritas::LogLevel::critical);
+    }
+    std::string cmd = argv[1];
+    Options opt;
+    if (char const* s = std::getenv("VERIF_SEED"))
+        opt.seed = std::strtoull(s, nullptr, 10);
+    if (char const* s = std::getenv("VERIF_TIER"))
+        opt.tier = s;
+    if (char const* s = std::getenv("VERIF_DIR"))
+        opt.verif_dir = s;
+    if (char const* s = std::getenv("VERIF_WORKERS"))
+        opt.workers = std::atoi(s);
+    std::uint64_t index = 0;
+    std::string file;
+    for (int i = 2; i < argc; ++i)
+    {
+        std::string a = argv[i];
+        auto next = [&]() -> std::string {
+            if (i + 1 >= argc)
+            {
+                usage();
+                std::exit(2);
+            }
+            return argv[++i];
+        };
+        if (a == "--property")
+            opt.property = next();
+        else if (a == "--tier")
+            opt.tier = next();
+        else if (a == "--seed")
+            opt.seed = std::strtoull(next().c_str(), nullptr, 10);
+        else if (a == "--runs")
+            opt.runs = std::atol(next().c_str());
+        else if (a == "--budget-s")
+            opt.budget_s = std::atof(next().c_str());
+        else if (a == "--run-timeout-s")
+            opt.run_timeout_s = std::atof(next().c_str());
+        else if (a == "--workers")
+            opt.workers = std::atoi(next().c_str());
+        else if (a == "--repeat")
+            opt.repeat = std::atoi(next().c_str());
+        else if (a == "--evidence")
+            opt.evidence = next();
+        else if (a == "--verif-dir")
+            opt.verif_dir = next();
+        else if (a == "--index")
+            index = std::strtoull(next().c_str(), nullptr, 10);
+        else if (a == "--shrink-tries")
+            opt.shrink_tries = std::atoi(next().c_str());
+        else if (a[0] != '-')
+            file = a;
+        else
+        {
+            usage();
+            return 2;
+        }
+    }
+    if (cmd == "run")
+        return cmd_run(opt);
+    if (cmd == "exec")
+        return cmd_exec(file);
+    if (cmd == "replay")
+        return cmd_replay(file, opt);
+    if (cmd == "plan")
+        return cmd_plan(opt, index);
+    usage();
+    return 2;
+}
